@@ -359,12 +359,47 @@ Section NetProof.
 
   (* ---------------- one event of the network ---------------- *)
 
-  Lemma legal_ev_k0 net e : legal_event (soup net) e = true -> ev_k0 (nsoup net) e.
+  (* durable = sent, as long as no process dies inside an event *)
+  Lemma in_cast_votes1 s v : In v (cast_votes s) <-> In (RVote v) (w_synced (wal_r s)).
   Proof.
-    destruct e; cbn; auto.
-    - destruct curh; auto. apply vote_mem_In.
+    unfold cast_votes. rewrite in_flat_map. split.
+    - intros [r [Hr Hv]]. destruct r as [u| | | | ]; try (destruct Hv; fail). destruct Hv as [<-|[]]. exact Hr.
+    - intro H. exists (RVote v). split; auto. left; auto.
+  Qed.
+
+  Lemma in_csoup_from1 l : forall a v,
+    In v (csoup_from byz a l) <->
+    exists k s, nth_error l k = Some s /\ byz (a + k)%nat = false /\ In (RVote v) (w_synced (wal_r s)).
+  Proof.
+    induction l as [|x l IH]; intros a v; cbn [csoup_from].
+    - split; [intros []|intros [k [s [H _]]]; destruct k; discriminate].
+    - rewrite in_app_iff, IH. split.
+      + intros [H|[k [s [A [B C]]]]].
+        * destruct (byz a) eqn:Bz; [destruct H|]. exists 0%nat, x. rewrite Nat.add_0_r.
+          repeat split; auto. apply in_cast_votes1; auto.
+        * exists (S k), s. rewrite Nat.add_succ_r. auto.
+      + intros [[|k] [s [A [B C]]]].
+        * cbn in A. inversion A; subst. rewrite Nat.add_0_r in *. left. rewrite B. apply in_cast_votes1; auto.
+        * right. exists k, s. cbn in A. rewrite Nat.add_succ_r in *. auto.
+  Qed.
+
+  Lemma csoup_soup net T v : NetInv net T -> In v (csoup byz net) -> In v (soup net).
+  Proof.
+    intros NI Hv. unfold csoup in Hv. apply in_app_or in Hv as [Hv|Hv]; [apply in_soup; auto|].
+    apply in_csoup_from1 in Hv as [k [sk [A [B C]]]]. cbn [Nat.add] in B.
+    assert (L : (k < n)%nat) by (rewrite <- (ni_len NI); apply nth_error_Some; congruence).
+    pose proof (sm_walr (no_sim (ni_nodes NI L B A))) as W. rewrite Forall_forall in W.
+    assert (Hw : In (RVote v) (wal_all (wal_r sk))) by (unfold wal_all; apply in_or_app; left; exact C).
+    specialize (W _ Hw). cbn in W.
+    apply (known_env v (ni_byz NI) B A). exact W.
+  Qed.
+
+  Lemma legal_ev_k0 net T e : NetInv net T -> legal_event (csoup byz net) e = true -> ev_k0 (nsoup net) e.
+  Proof.
+    intro NI. destruct e; cbn; auto.
+    - destruct curh; auto. intro H. apply (csoup_soup v NI). apply vote_mem_In; auto.
     - intros H c v Hin Hc. rewrite forallb_forall in H. specialize (H _ Hin). cbn in H. subst c. cbn in H.
-      apply vote_mem_In; auto.
+      apply (csoup_soup v NI). apply vote_mem_In; auto.
   Qed.
 
   Lemma soup_wf net T v : NetInv net T -> In v (soup net) -> 0 <= v_from v < Z.of_nat n /\ 0 <= v_round v.
@@ -392,14 +427,14 @@ Section NetProof.
     intros NI Fz. destruct e as [i [[ev fz] d]|v]; cbn [net_step fst snd].
     - destruct fz; [discriminate Fz|].
       destruct (nth_error (nodes net) i) as [s|] eqn:Hs; [|exists T; auto].
-      destruct (legal_event (soup net) ev) eqn:Lg; [|exists T; auto].
+      destruct (legal_event (csoup byz net) ev) eqn:Lg; [|exists T; auto].
       assert (Li : (i < n)%nat) by (rewrite <- (ni_len NI); apply nth_error_Some; congruence).
       assert (Li' : (i < length (nodes net))%nat) by (rewrite (ni_len NI); auto).
       destruct (byz i) eqn:Bi.
       { exists T. apply NetInv_byz_node; auto. }
       pose proof (NodeOK_P (ni_nodes NI Li Bi Hs)) as P0.
       unfold node_step. cbn [fst snd].
-      assert (P' := P_step_ev_any Li Bi (env_ok i NI) blocks_ok d Hb3 ev P0 (legal_ev_k0 _ _ Lg)).
+      assert (P' := P_step_ev_any Li Bi (env_ok i NI) blocks_ok d Hb3 ev P0 (legal_ev_k0 _ NI Lg)).
       remember (step_ev n (Z.of_nat i) blocks d ev None s) as s' eqn:Es. clear Es.
       destruct (NetInv_node_step NI Li Bi Hs P') as [T' [NI' _]]. exists T'. exact NI'.
     - destruct (legal_byz n byz v) eqn:Lg; [|exists T; auto].
